@@ -30,7 +30,7 @@ def aggregate(rows):
 class C07(core.Check):
     pid = 'C07'
     unproved = [
-        'the run-level theorems runStepN_all (normal simulator) and runSkipN_all (fast simulator) cover whole runs for any number of symbols and timeframes and every strategy; runSkipN_gcd is the fast-simulator statement for the simulator's own chunk size (gcd of the route timeframes, proved to divide every timeframe); both assume that all input arrays have one length; what a hook reads BETWEEN two protocol operations is covered by publish_establishes_inv / the frame lemmas, and by the every-hook get_candles oracle on real sessions',
+        'the run-level theorems runStepN_all (normal simulator) and runSkipN_all (fast simulator) cover whole runs for any number of symbols and timeframes and every strategy; runSkipN_gcd is the fast-simulator statement for the own chunk size of the simulator (gcd of the route timeframes, proved to divide every timeframe); both assume that all input arrays have one length; what a hook reads BETWEEN two protocol operations is covered by publish_establishes_inv / the frame lemmas, and by the every-hook get_candles oracle on real sessions',
         'warm-up injection (candles put into the store before the session) is outside the engine model: oracle only',
     ]
     gen_keys = ['jesse/services/candle.py:generate_candle_from_one_minutes', 'jesse/modes/backtest_mode.py:_get_fixed_jumped_candle']
